@@ -123,6 +123,15 @@ PROPS = {
         level_text=C10_TEXT,
         level_note='Trusted: Coq kernel, translator (LimitedVec constants), hand model of Arena/LimitedVec/SharedMemoryLimiter accounting (Vec::try_reserve_exact assumed exact), '
                    'size_of::<StackItem> measured through the limiter hook at run time and passed to the model; correspondence on results, usage after every write and output.'),
+    'C04': dict(coq=['props/C04.vo'], families=[('c04', 2500, 60000), ('l2match', 500, 10000), ('grp-l2mixed', 300, 6000)], projections=['handlers', 'events'], oracle=oracle_c04, classify=classify_c04, prepare=prepare_c04,
+        technique='Coq proofs about the pieces of selector matching against an independent Coq reference semantics (spec/CssSem.v); the extracted reference semantics is the oracle for the '
+                  'implementation\'s element-handler invocations; extraction-based correspondence run of the AST/compiler/VM/stack model',
+        level_text='Theorems C04_local_names_compare_ascii_case_insensitively (hash or bytes comparison = ASCII case-insensitive name equality, all byte strings), C04_attribute_operators_are_css '
+                   '(all six operators, all values/operands/case flags), C04_nth_index_is_an_plus_b + C04_an_plus_b_meaning (wrapping i32 arithmetic decides An+B while index-b stays in i32). '
+                   'Partial: the statement "VM match set = CSS match set for every selector set and tag sequence" is not yet a theorem; it is decided by running the extracted reference semantics '
+                   '(tree induced by explicit tags, right-to-left matching over the ancestor chain) on the model\'s tag stream and comparing with the handler invocations of the real rewriter, '
+                   'for selectors from the full grammar, plus the correspondence run of the VM model. Known finding NotCompoundArg.',
+        level_note='Trusted as C01 plus: the pairing of selector strings with their structure in tools/gen.py (cssparser / selectors crate parsing is not modelled), spec/CssSem.v as the meaning of "CSS semantics".'),
     #'C01': dict(coq=['props/C01.vo'], families=[('l1', 1500, 40000)], projections=['out_bytes'], oracle=oracle_c01),
     'C12': dict(coq=['props/C12.vo'], families=[('l1', 800, 20000), ('l1fail', 500, 10000), ('l2fail', 500, 10000), ('l2edit', 500, 10000)], projections=['sink_protocol'], oracle=oracle_c12,
         technique='Coq proof: generic frame theorem over the executable model + invariant over call histories; extraction-based correspondence run',
